@@ -44,6 +44,11 @@ type Sched struct {
 	// Prio, if set, biases choice (PCT-like): lower value = preferred. Drawn per run by engines.
 	Prio map[string]int
 	Free bool // when true Park is a no-op (sequential engines)
+	// Frozen: pick the first enabled actor without consulting the tape and without touching the schedule hash.
+	// Used for phases whose internal order depends on a runtime choice the library makes itself (sync.Map.Range)
+	// but whose outcome does not.
+	Frozen      bool
+	FrozenSteps int
 }
 
 func newSched(r *Run) *Sched {
@@ -195,6 +200,17 @@ func (s *Sched) Step() bool {
 		return false
 	}
 	var pick string
+	if s.Frozen {
+		pick = en[0]
+		p := s.parked[pick]
+		delete(s.parked, pick)
+		s.FrozenSteps++
+		if s.OnRelease != nil {
+			s.OnRelease(p)
+		}
+		close(p.ch)
+		return true
+	}
 	if s.Prio != nil && len(en) > 1 && s.r.Tape.Draw(4) != 0 {
 		// priority mode (3 of 4 steps): run the highest-priority enabled actor
 		best := en[0]
